@@ -135,24 +135,17 @@ Proof.
 Qed.
 
 Lemma del_canon_above : forall fuel c i c', del_canon_from fuel c i = Some c' ->
-  (forall n m, c n = None -> n <= m -> c m = None) ->
+  (forall n m, i <= n -> n <= m -> c n = None -> c m = None) ->
   forall n, i <= n -> c' n = None.
 Proof.
   induction fuel as [|f IH]; intros c i c' H Hc n Hn; [discriminate|].
   cbn in H. destruct (c i) eqn:E.
   - destruct (N.eq_dec n i) as [->|Hne].
     + rewrite (del_canon_below _ _ _ _ H i) by lia. apply upd_same.
-    + eapply IH; eauto; [|lia]. intros a m Ha Hle. unfold upd in *.
-      destruct (N.eqb_spec m i); auto. destruct (N.eqb_spec a i).
-      * subst a. (* a = i < m: use contiguity from any None... *)
-        destruct (c m) eqn:Em; auto. exfalso.
-        (* c i is Some, so nothing forces c m; but None at a=i in upd only *)
-        clear -E Em Hc Hle n0.
-        (* no information: we need c m = None only if some entry at or below was None in c *)
-        admit_placeholder.
-      * eapply Hc; eauto.
-  - inversion H; subst. eapply Hc; eauto.
-Abort.
+    + eapply IH; eauto; [|lia]. intros a m Ha Hle Hnone.
+      rewrite upd_other in Hnone by lia. rewrite upd_other by lia. apply (Hc a m); auto; lia.
+  - inversion H; subst. apply (Hc i n); auto; lia.
+Qed.
 
 Lemma del_canon_term : forall fuel c i,
   (0 < fuel)%nat -> (forall n, i + N.of_nat fuel <= n + 1 -> c n = None) ->
@@ -162,7 +155,7 @@ Proof.
   cbn. destruct (c i) eqn:E; [|discriminate].
   destruct f as [|f'].
   - rewrite Hc in E by lia. discriminate.
-  - apply IH; [lia|]. intros n Hn. unfold upd. destruct (N.eqb_spec n i); auto. apply Hc. lia.
+  - apply IH; [lia|]. intros m Hm. unfold upd. destruct (N.eqb_spec m i); auto. apply Hc. lia.
 Qed.
 
 (* ---- write_head_block ---- *)
@@ -186,6 +179,262 @@ Proof.
   intros l p c0 st Hd. revert st. induction Hd; intros st Hx Hc; cbn; auto.
   rewrite fold_left_app. cbn. apply GC_write with (p := p); auto.
   apply IHHd; auto. apply H0.
+Qed.
+
+
+(* ---- reorg ---- *)
+Definition same_frame (st st' : db) : Prop :=
+  known st' = known st /\ rcpt st' = rcpt st /\ avail st' = avail st /\ disk st' = disk st.
+
+Lemma same_frame_refl : forall st, same_frame st st.
+Proof. intros; repeat split. Qed.
+Lemma same_frame_trans : forall a b c, same_frame a b -> same_frame b c -> same_frame a c.
+Proof. intros a b c (?&?&?&?) (?&?&?&?). repeat split; etransitivity; eauto. Qed.
+
+(* the two walks of reorg, as one statement *)
+Definition reorg_walk (fuel : nat) (st : db) (old new : hdr) : res (hdr * list hdr * list hdr) :=
+  match (if hnum new <? hnum old
+         then match reduce T fuel st (Some old) (hnum new) [] with
+              | None => Err EOutOfFuel
+              | Some (o, oc) => Ok (o, Some new, oc, [])
+              end
+         else match reduce T fuel st (Some new) (hnum old) [] with
+              | None => Err EOutOfFuel
+              | Some (n, nc) => Ok (Some old, n, [], nc)
+              end) with
+  | Err e => Err e
+  | Ok (o, n, oc0, nc0) =>
+    match o with
+    | None => Err EInvalidOldChain
+    | Some o1 => match n with
+                 | None => Err EInvalidNewChain
+                 | Some n1 => find_common T fuel st o1 n1 oc0 nc0
+                 end
+    end
+  end.
+
+Lemma reorg_walk_spec : forall fuel st old new c oc nc,
+  reorg_walk fuel st old new = Ok (c, oc, nc) -> hdr_ok old -> hdr_ok new ->
+  down old oc c /\ down new nc c /\ hdr_ok c.
+Proof.
+  intros fuel st old new c oc nc H Ho Hn. unfold reorg_walk in H.
+  assert (K : forall o1 n1 oc0 nc0, hdr_ok o1 -> hdr_ok n1 -> down old oc0 o1 -> down new nc0 n1 ->
+              find_common T fuel st o1 n1 oc0 nc0 = Ok (c, oc, nc) ->
+              down old oc c /\ down new nc c /\ hdr_ok c).
+  { intros o1 n1 oc0 nc0 Ho1 Hn1 Hdo Hdn HF.
+    destruct (find_common_spec _ _ _ _ _ _ _ _ _ HF Ho1 Hn1) as (lo & ln & -> & -> & Hlo & c' & Hln & Ec).
+    assert (Hc : hdr_ok c) by (eapply down_ok_end; eauto).
+    assert (Hc' : hdr_ok c') by (eapply down_ok_end; eauto).
+    assert (c' = c) by (apply hdr_ok_inj; auto). subst c'.
+    repeat split; auto; eapply down_app; eauto. }
+  destruct (hnum new <? hnum old).
+  - destruct (reduce T fuel st (Some old) (hnum new) []) as [[o oc0]|] eqn:ER; [|discriminate].
+    destruct o as [o1|]; [|discriminate].
+    destruct (reduce_spec _ _ _ _ _ _ _ ER Ho) as (l & -> & Hd & _). cbn [app] in *.
+    apply (K o1 new l []); auto; [eapply down_ok_end; eauto | constructor].
+  - destruct (reduce T fuel st (Some new) (hnum old) []) as [[n nc0]|] eqn:ER; [|discriminate].
+    destruct n as [n1|]; [|discriminate].
+    destruct (reduce_spec _ _ _ _ _ _ _ ER Hn) as (l & -> & Hd & _). cbn [app] in *.
+    apply (K old n1 [] l); auto; [eapply down_ok_end; eauto | constructor].
+Qed.
+
+(* reorg = walks, then the rewrite; the shape used by every later lemma *)
+Lemma reorg_unfold : forall fuel st old new,
+  reorg T fuel st old new =
+  match reorg_walk fuel st old new with
+  | Err e => Err e
+  | Ok (c, oc, nc) =>
+    let removed := map EvRemoved (chunk_logs (map (logs_of st) (rev oc)) []) in
+    let nb := rev (tl nc) in
+    let added := map EvLogs (chunk_logs (map (logs_of st) nb) []) in
+    let st1 := fold_left write_head_block nb st in
+    let st2 := set_lookup st1 (delete_lookups (lookup st1)
+                  (filter (fun tx => negb (mem tx (hdr_txs nb))) (hdr_txs oc))) in
+    let number := match nc with _ :: x1 :: _ => hnum x1 | _ => hnum c end in
+    match del_canon_from fuel (canon st2) (number + 1) with
+    | None => Err EOutOfFuel
+    | Some c' => Ok (set_canon st2 c', removed ++ added)
+    end
+  end.
+Proof.
+  intros. unfold reorg, reorg_walk.
+  destruct (hnum new <? hnum old).
+  - destruct (reduce T fuel st (Some old) (hnum new) []) as [[[o1|] oc0]|]; auto;
+      try (destruct (find_common T fuel st o1 new oc0 []) as [[[c oc] nc]|]; auto).
+  - destruct (reduce T fuel st (Some new) (hnum old) []) as [[[n1|] nc0]|]; auto;
+      try (destruct (find_common T fuel st old n1 [] nc0) as [[[c oc] nc]|]; auto).
+Qed.
+
+(* the header below which the canonical index is rebuilt by reorg *)
+Definition reorg_top (c : hdr) (nc : list hdr) : hdr :=
+  match nc with _ :: x1 :: _ => x1 | _ => c end.
+
+Lemma reorg_top_spec : forall new nc c, down new nc c -> hdr_ok new ->
+  let p := reorg_top c nc in
+  hdr_ok p /\ (p = new \/ parent_of new p) /\ down p (tl nc) c.
+Proof.
+  intros new nc c Hd Hn. destruct Hd as [x | x p l y Hx Hp Hd']; cbn.
+  - repeat split; auto. constructor.
+  - destruct Hd' as [z | z q l' y' Hz Hq Hd'']; cbn.
+    + repeat split; auto; [apply Hp | constructor].
+    + repeat split; auto. econstructor; eauto.
+Qed.
+
+Lemma reorg_GC : forall fuel st old new st' evs,
+  reorg T fuel st old new = Ok (st', evs) -> hdr_ok old -> hdr_ok new -> GC (canon st) old ->
+  exists p, GC (canon st') p /\ hdr_ok p /\ (p = new \/ parent_of new p) /\ same_frame st st'.
+Proof.
+  intros fuel st old new st' evs H Ho Hn HG. rewrite reorg_unfold in H.
+  destruct (reorg_walk fuel st old new) as [[[c oc] nc]|] eqn:EW; [|discriminate].
+  destruct (reorg_walk_spec _ _ _ _ _ _ _ EW Ho Hn) as (Hdo & Hdn & Hc).
+  cbv zeta in H.
+  set (nb := rev (tl nc)) in *.
+  set (st1 := fold_left write_head_block nb st) in *.
+  match type of H with context [del_canon_from fuel ?cc ?ii] =>
+    destruct (del_canon_from fuel cc ii) as [c'|] eqn:ED; [|discriminate] end.
+  inversion H; subst st' evs; clear H.
+  destruct (reorg_top_spec _ _ _ Hdn Hn) as (Hp & Hcase & Hdp).
+  exists (reorg_top c nc). repeat split; auto.
+  - assert (G1 : GC (canon st1) (reorg_top c nc)).
+    { subst st1 nb. eapply fold_whb_GC; eauto.
+      intros n Hle. rewrite HG by (apply down_hnum in Hdo; lia).
+      eapply down_anc; eauto. }
+    intros n Hle. cbn [canon set_canon].
+    rewrite (del_canon_below _ _ _ _ ED n).
+    + apply G1; auto.
+    + unfold reorg_top in Hle. destruct nc as [|? [|? ?]]; lia.
+  - cbn. apply (fold_whb_frame nb st).
+  - cbn. apply (fold_whb_frame nb st).
+  - cbn. apply (fold_whb_frame nb st).
+  - cbn. apply (fold_whb_frame nb st).
+Qed.
+
+
+(* ---- events of reorg ---- *)
+Definition removed_logs (evs : list event) : list N :=
+  flat_map (fun e => match e with EvRemoved l => l | _ => [] end) evs.
+Definition added_logs (evs : list event) : list N :=
+  flat_map (fun e => match e with EvLogs l => l | _ => [] end) evs.
+
+Lemma chunk_concat : forall bs acc, concat (chunk_logs bs acc) = acc ++ concat bs.
+Proof.
+  induction bs as [|l r IH]; intros acc.
+  - cbn. destruct acc; cbn; now rewrite ?app_nil_r.
+  - cbn [chunk_logs]. cbv zeta. destruct (Nat.ltb 512 (length (acc ++ l))).
+    + change (concat ((acc ++ l) :: chunk_logs r [])) with ((acc ++ l) ++ concat (chunk_logs r [])).
+      rewrite IH. cbn. now rewrite app_assoc.
+    + rewrite IH. cbn. now rewrite app_assoc.
+Qed.
+
+Lemma removed_logs_app : forall a b, removed_logs (a ++ b) = removed_logs a ++ removed_logs b.
+Proof. intros. unfold removed_logs. now rewrite flat_map_app. Qed.
+Lemma added_logs_app : forall a b, added_logs (a ++ b) = added_logs a ++ added_logs b.
+Proof. intros. unfold added_logs. now rewrite flat_map_app. Qed.
+Lemma removed_of_removed : forall ls, removed_logs (map EvRemoved ls) = concat ls.
+Proof. induction ls; cbn; auto. unfold removed_logs in *. cbn. now rewrite IHls. Qed.
+Lemma removed_of_added : forall ls, removed_logs (map EvLogs ls) = [].
+Proof. induction ls; cbn; auto. Qed.
+Lemma added_of_added : forall ls, added_logs (map EvLogs ls) = concat ls.
+Proof. induction ls; cbn; auto. unfold added_logs in *. cbn. now rewrite IHls. Qed.
+Lemma added_of_removed : forall ls, added_logs (map EvRemoved ls) = [].
+Proof. induction ls; cbn; auto. Qed.
+Lemma concat_map_flat : forall A (f : A -> list N) l, concat (map f l) = flat_map f l.
+Proof. induction l; cbn; auto. now rewrite IHl. Qed.
+
+(* the two walks meet at the first height where the hashes agree: the branches
+   below are hash-disjoint *)
+Lemma find_common_disjoint : forall fuel st o n oc nc c oc' nc',
+  find_common T fuel st o n oc nc = Ok (c, oc', nc') ->
+  Forall2 (fun a b => fst a <> fst b) oc nc -> Forall2 (fun a b => fst a <> fst b) oc' nc'.
+Proof.
+  induction fuel as [|f IH]; intros st o n oc nc c oc' nc' H HF; [discriminate|].
+  cbn [find_common] in H. destruct (N.eqb_spec (fst o) (fst n)) as [E|E].
+  - now inversion H; subst.
+  - destruct (parent_hdr T st o); [|discriminate]. destruct (parent_hdr T st n); [|discriminate].
+    eapply IH; eauto. apply Forall2_app; auto.
+Qed.
+
+Lemma reorg_events : forall fuel st old new st' evs,
+  reorg T fuel st old new = Ok (st', evs) -> hdr_ok old -> hdr_ok new ->
+  exists c oc nc, down old oc c /\ down new nc c /\
+    removed_logs evs = flat_map (logs_of st) (rev oc) /\
+    added_logs evs = flat_map (logs_of st) (rev (tl nc)).
+Proof.
+  intros fuel st old new st' evs H Ho Hn. rewrite reorg_unfold in H.
+  destruct (reorg_walk fuel st old new) as [[[c oc] nc]|] eqn:EW; [|discriminate].
+  destruct (reorg_walk_spec _ _ _ _ _ _ _ EW Ho Hn) as (Hdo & Hdn & Hc).
+  cbv zeta in H.
+  match type of H with context [del_canon_from fuel ?cc ?ii] =>
+    destruct (del_canon_from fuel cc ii) as [c'|] eqn:ED; [|discriminate] end.
+  inversion H; subst st' evs; clear H.
+  exists c, oc, nc. repeat split; auto.
+  - rewrite removed_logs_app, removed_of_removed, removed_of_added, app_nil_r, chunk_concat.
+    cbn. apply concat_map_flat.
+  - rewrite added_logs_app, added_of_removed, added_of_added, chunk_concat.
+    cbn. apply concat_map_flat.
+Qed.
+
+(* ---- termination of reorg ---- *)
+Lemma reduce_term : forall fuel st x target acc, hdr_ok x ->
+  (N.to_nat (hnum x) + 1 < fuel)%nat -> reduce T fuel st (Some x) target acc <> None.
+Proof.
+  induction fuel as [|f IH]; intros st x target acc Hx Hf; [lia|].
+  cbn [reduce]. destruct (hnum x =? target); [discriminate|].
+  destruct (parent_hdr T st x) as [p|] eqn:EP.
+  - pose proof (parent_hdr_spec _ _ _ EP) as (Hp & _ & Hnum). apply IH; auto. lia.
+  - destruct f; [|discriminate]. lia.
+Qed.
+
+Lemma find_common_term : forall fuel st o n oc nc, hdr_ok o ->
+  (N.to_nat (hnum o) < fuel)%nat -> find_common T fuel st o n oc nc <> Err EOutOfFuel.
+Proof.
+  induction fuel as [|f IH]; intros st o n oc nc Ho Hf; [lia|].
+  cbn [find_common]. destruct (fst o =? fst n); [discriminate|].
+  destruct (parent_hdr T st o) as [o'|] eqn:EO; [|discriminate].
+  destruct (parent_hdr T st n) as [n'|]; [|discriminate].
+  pose proof (parent_hdr_spec _ _ _ EO) as (Hp & _ & Hnum). apply IH; auto. lia.
+Qed.
+
+Lemma down_in_hnum : forall x l y, down x l y -> forall z, In z l -> hnum z <= hnum x.
+Proof.
+  induction 1; intros z Hz; [destruct Hz|]. destruct Hz as [<-|Hz]; [lia|].
+  apply IHdown in Hz. destruct H0 as (_ & _ & ?). lia.
+Qed.
+
+Lemma fold_whb_canon_other : forall l st n, (forall z, In z l -> hnum z <> n) ->
+  canon (fold_left write_head_block l st) n = canon st n.
+Proof.
+  induction l as [|a l IH]; intros st n Hn; cbn; auto.
+  rewrite IH by (intros; apply Hn; now right). cbn. apply upd_other.
+  intro E. apply (Hn a); [now left|auto].
+Qed.
+
+Lemma reorg_terminates : forall fuel st old new, hdr_ok old -> hdr_ok new ->
+  (N.to_nat (hnum old) + N.to_nat (hnum new) + 1 < fuel)%nat ->
+  (forall n, N.of_nat fuel <= n -> canon st n = None) ->
+  reorg T fuel st old new <> Err EOutOfFuel.
+Proof.
+  intros fuel st old new Ho Hn Hf Hc. rewrite reorg_unfold.
+  assert (HW : reorg_walk fuel st old new <> Err EOutOfFuel).
+  { unfold reorg_walk. destruct (hnum new <? hnum old).
+    - destruct (reduce T fuel st (Some old) (hnum new) []) as [[[o1|] oc0]|] eqn:ER; try discriminate.
+      + destruct (reduce_spec _ _ _ _ _ _ _ ER Ho) as (l & _ & Hd & _).
+        apply find_common_term; [eapply down_ok_end; eauto|]. apply down_hnum in Hd. lia.
+      + exfalso. eapply reduce_term; [exact Ho| |exact ER]. lia.
+    - destruct (reduce T fuel st (Some new) (hnum old) []) as [[[n1|] nc0]|] eqn:ER; try discriminate.
+      + apply find_common_term; auto. lia.
+      + exfalso. eapply reduce_term; [exact Hn| |exact ER]. lia. }
+  destruct (reorg_walk fuel st old new) as [[[c oc] nc]|] eqn:EW; [|congruence].
+  destruct (reorg_walk_spec _ _ _ _ _ _ _ EW Ho Hn) as (Hdo & Hdn & Hcc).
+  cbv zeta.
+  match goal with |- context [del_canon_from fuel ?cc ?ii] =>
+    destruct (del_canon_from fuel cc ii) as [c'|] eqn:ED; [discriminate|] end.
+  exfalso. revert ED. apply del_canon_term; [lia|].
+  intros n Hle. cbn [canon set_lookup].
+  rewrite fold_whb_canon_other; [apply Hc; lia|].
+  intros z Hz. apply in_rev in Hz.
+  assert (In z nc) by (destruct nc; [destruct Hz | now right]).
+  apply (down_in_hnum _ _ _ Hdn) in H. lia.
 Qed.
 
 End Proofs.
